@@ -181,6 +181,12 @@ def check_canonical(ctx, tt, mpmath, mps, kind, right, chi, tol, qr, normalise, 
     nf = 1.0 if norm is None else float(norm)
     if a == b:
         return
+    ro = [t for t in out if t is not None]
+    ri = [t for t in mps if t is not None]
+    if any(o.ndim != 4 for o in ro) or any(o.shape[1] != t.shape[1] or o.shape[3] != t.shape[3] for o, t in zip(ro, ri)) or \
+            any(x.shape[2] != y.shape[0] for x, y in zip(ro, ro[1:])):
+        ctx.violation('shapes', 'physical legs changed or bonds inconsistent', dict(rep, out=shape_enc(out)))
+        return
     st_out = dense_state(out)
     # ---- zero state
     exact_zero = any(t is not None and not t.any() for t in mps)
@@ -200,18 +206,13 @@ def check_canonical(ctx, tt, mpmath, mps, kind, right, chi, tol, qr, normalise, 
         if float(np.abs(st_out).max()) * abs(nf) > TOL * sc:
             ctx.violation('zero-state', 'zero state mapped to a non-zero state', rep)
         return
+    if ro[0].shape[0] != ri[0].shape[0] or ro[-1].shape[2] != ri[-1].shape[2]:
+        ctx.violation('shapes', 'outer legs changed', dict(rep, out=shape_enc(out)))
+        return
     # ---- shapes against the model (tol unset: shapes are a function of the input shapes)
     if not tol and not (normalise and nf == 0.0) and not is_zeros_like(out, mps):
         add(name + ' shapes', '%s %s %s %s %s' % ('rcf' if right else 'lcf', shape_enc(mps), '_' if chi is None else str(chi),
                                                '1' if qr else '0', mask_enc(mask)), shape_enc(out), rep)
-    # ---- outer legs and physical legs unchanged, chain consistent
-    ro = [t for t in out if t is not None]
-    ri = [t for t in mps if t is not None]
-    if ro[0].shape[0] != ri[0].shape[0] or ro[-1].shape[2] != ri[-1].shape[2] or \
-            any(o.shape[1] != t.shape[1] or o.shape[3] != t.shape[3] for o, t in zip(ro, ri)) or \
-            any(x.shape[2] != y.shape[0] for x, y in zip(ro, ro[1:])):
-        ctx.violation('shapes', 'outer/physical legs changed or bonds inconsistent', dict(rep, out=shape_enc(out)))
-        return
     # ---- isometries away from the orthogonality centre
     sites = ro[1:] if right else ro[:-1]
     for j, t in enumerate(sites):
@@ -298,6 +299,12 @@ def check_truncate(ctx, tt, mpmath, mps, kind, chi, tol, mask, add):
     a, b = run_of(mps)
     st_in = dense_state(mps)
     nf = float(norm)
+    ro = [t for t in out if t is not None]
+    ri = [t for t in mps if t is not None]
+    if any(o.ndim != 4 for o in ro) or any(o.shape[1] != t.shape[1] or o.shape[3] != t.shape[3] for o, t in zip(ro, ri)) or \
+            any(x.shape[2] != y.shape[0] for x, y in zip(ro, ro[1:])):
+        ctx.violation('shapes', 'physical legs changed or bonds inconsistent', dict(rep, out=shape_enc(out)))
+        return
     zl = is_zeros_like(out, mps)
     if (nf == 0.0) != zl:
         ctx.violation('zero-state', 'norm 0 and zeros_like tensors do not go together (truncate)', dict(rep, norm=str(norm)))
